@@ -167,4 +167,62 @@ theorem commonPass_succeeds (common : List String) (eq : EqProof G) :
 
 
 
+/-- the common-attribute pass with an invariant: every stored response is `F a` -/
+theorem commonPass_inv (common : List String) (eq : EqProof G) (F : String → ℤ) :
+    ∀ (as : List String) (seen : List (String × ℤ)),
+      (∀ a ∈ as, lookup a eq.m = some (F a)) → (∀ a v, lookup a seen = some v → v = F a) →
+      ∃ seen', commonPass common eq seen as = .ok seen' ∧
+        (∀ a v, lookup a seen' = some v → v = F a) := by
+  intro as
+  induction as with
+  | nil => intro seen _ h2; exact ⟨seen, rfl, h2⟩
+  | cons a as ih =>
+    intro seen h1 h2
+    have hl := h1 a (by simp)
+    simp only [commonPass, hl]
+    cases hs : lookup a seen with
+    | some v =>
+      have : v = F a := h2 a v hs
+      subst this
+      simp only [beq_self_eq_true, if_true]
+      exact ih seen (fun x hx => h1 x (by simp [hx])) h2
+    | none =>
+      simp only
+      refine ih _ (fun x hx => h1 x (by simp [hx])) ?_
+      intro x v hx
+      simp only [lookup] at hx
+      split at hx
+      · rename_i heq
+        have : x = a := by simpa using heq
+        cases hx; subst this; rfl
+      · exact h2 x v hx
+
+/-- the seed of a declared common attribute -/
+def seedOf (common : List (String × ℤ)) (a : String) : ℤ := (lookup a common).getD 0
+
+theorem lookup_of_mem_keys {α : Type} : ∀ (l : List (String × α)) (a : String), a ∈ keys l →
+    ∃ s, lookup a l = some s := by
+  intro l
+  induction l with
+  | nil => intro a h; simp [keys] at h
+  | cons kv l ih =>
+    intro a h
+    obtain ⟨k, v⟩ := kv
+    simp only [lookup]
+    by_cases hk : a = k
+    · subst hk; exact ⟨v, by simp⟩
+    · have : (a == k) = false := by simpa using hk
+      simp only [this, Bool.false_eq_true, if_false]
+      apply ih
+      simp only [keys, List.map_cons, List.mem_cons] at h
+      rcases h with h | h
+      · exact absurd h hk
+      · exact h
+
+theorem mtOf_common (fresh : String → ℤ) (common : List (String × ℤ)) (a : String)
+    (h : a ∈ keys common) : mtOf fresh common a = seedOf common a := by
+  obtain ⟨s, hs⟩ := lookup_of_mem_keys common a h
+  simp [mtOf, seedOf, hs]
+
+
 end CL.Pri
